@@ -1,17 +1,317 @@
-//! C08 — stub (monitor not written yet)
-use serde_json::Value;
+//! C08 — package-type rules: pypi and nuget names, maven namespace, others untouched; the
+//! typed PURL agrees with the type-agnostic one on everything but the name.
+//!
+//! Oracles: R4 (name rules), and two differential twins: parser vs builder, typed vs untyped.
 
-use super::Fail;
-use crate::obs::{Ctx, Tier};
+use purl::{PackageType, Purl};
+use serde_json::{json, Value};
 
-pub const RULE: &str = "";
+use super::{str_field, Fail};
+use crate::exec::{mk_typed, ALL_TYPES};
+use crate::gen;
+use crate::model::{self, typed_name};
+use crate::obs::{self, Ctx, Out, Snap, Tier};
+use crate::rng::fnv;
+use crate::shrink::shrink_str;
+use crate::spell;
 
-pub fn requirements(_tier: Tier) -> Vec<(&'static str, u64)> {
-    vec![("not-implemented", 1)]
+pub const RULE: &str = "a case is (type, name) run through the parser path and the builder path, or one string parsed typed and untyped; non-trivial = the type's rule changes the name, or maven without namespace, or a typed/untyped pair that both accept with >= 1 optional component; distinct by hash of (type, name) resp. the string";
+
+pub fn requirements(tier: Tier) -> Vec<(&'static str, u64)> {
+    let short = if tier == Tier::Quick { 37_448 } else { 299_592 };
+    vec![
+        ("exhaustive:scalar-names-x-type", 7 * 1_112_064),
+        ("exhaustive:short-names-x-type", 7 * short),
+        ("rule-changed-name:pypi", 1_000),
+        ("rule-changed-name:nuget", 1_000),
+        ("set:titlecase-exercised", 31),
+        ("maven-without-namespace-refused", 100),
+        ("twin:both-accept", 10_000),
+        ("twin:unknown-type-refused", 1_000),
+    ]
 }
 
-pub fn run(_ctx: &mut Ctx) {}
+fn enc_all(n: &str) -> String {
+    let mut o = String::new();
+    for b in n.bytes() {
+        if b.is_ascii_alphanumeric() {
+            o.push(b as char);
+        } else {
+            o.push_str(&format!("%{b:02X}"));
+        }
+    }
+    o
+}
 
-pub fn replay(_monitor: &str, _case: &Value) -> Result<Option<Fail>, String> {
-    Err("not implemented".into())
+fn type_name(t: PackageType) -> &'static str {
+    // by variant, not via the library's name()
+    match t {
+        PackageType::Cargo => "cargo",
+        PackageType::Gem => "gem",
+        PackageType::Golang => "golang",
+        PackageType::Maven => "maven",
+        PackageType::Npm => "npm",
+        PackageType::NuGet => "nuget",
+        PackageType::PyPI => "pypi",
+        _ => "?",
+    }
+}
+
+/// Name rule through both entry points. `with_ns`: give the PURL a namespace segment `g`.
+pub fn judge_name(ty: &str, n: &str, ns_mode: u8) -> Option<Fail> {
+    let t = mk_typed(ty)?;
+    let with_ns = ns_mode == 1;
+    let s = match ns_mode {
+        1 => format!("pkg:{ty}/g/{}", enc_all(n)),
+        2 => format!("pkg:{ty}///{}", enc_all(n)),
+        3 => format!("pkg:{ty}//{}", enc_all(n)),
+        _ => format!("pkg:{ty}/{}", enc_all(n)),
+    };
+    let parsed = obs::parse::<PackageType>(&s).map(|p| Snap::of(&p));
+    let b = Purl::builder(t, n);
+    let b = match ns_mode {
+        1 => b.with_namespace("g"),
+        2 => b.with_namespace("//"),
+        3 => b.with_namespace("/"),
+        _ => b,
+    };
+    let built = obs::build(b).map(|p| Snap::of(&p));
+    let want_name = typed_name(ty, n);
+    let expect_refused = ty == "maven" && !with_ns;
+    for (path, out) in [("parser", &parsed), ("builder", &built)] {
+        match out {
+            Out::Ok(snap) => {
+                if expect_refused {
+                    return Some(Fail::tagged("maven-accepted-without-namespace", path, format!("{path} path accepted maven name {n:?} without a namespace (namespace mode {ns_mode}: 0 absent, 2 \"//\", 3 \"/\")")));
+                }
+                if snap.name != want_name {
+                    let d = snap.name.chars().zip(want_name.chars()).find(|(a, b)| a != b).map(|(a, b)| format!("got U+{:04X} want U+{:04X}", a as u32, b as u32)).unwrap_or_else(|| "length".into());
+                    let class = if snap.name == n { "name-left-unchanged" } else { "name-changed-wrongly" };
+                    return Some(Fail::tagged(
+                        "name-rule",
+                        format!("{ty}:{path}:{class}"),
+                        format!("{ty} name {n:?} through the {path} path ({}) came out as {:?}; the rule gives {want_name:?} ({d})", if path == "parser" { s.clone() } else { "Purl::builder".into() }, snap.name),
+                    ));
+                }
+                let want_ns = if with_ns { Some("g".to_string()) } else { None };
+                if snap.ns != want_ns || snap.ver.is_some() || !snap.quals.is_empty() || snap.sub.is_some() || snap.ty != ty {
+                    return Some(Fail::tagged("other-component-touched", format!("{ty}:{path}"), format!("{path} path for {ty} name {n:?}: unexpected components {snap:?}")));
+                }
+            },
+            Out::Err(e) => {
+                let ok = expect_refused && e == "MissingRequiredField(Namespace)";
+                if !ok {
+                    return Some(Fail::tagged("refused", format!("{ty}:{path}:{e}"), format!("{path} path refused {ty} name {n:?} (namespace mode {ns_mode}) with {e}")));
+                }
+            },
+            Out::Panic(m) => return Some(Fail::tagged("panicked", format!("{ty}:{path}"), format!("{path} path for {ty} name {n:?} panicked: {m}"))),
+        }
+    }
+    if parsed != built {
+        return Some(Fail::tagged("paths-disagree", ty, format!("parser and builder disagree for {ty} name {n:?}: {parsed:?} vs {built:?}")));
+    }
+    None
+}
+
+fn name_case(ctx: &mut Ctx, ty: &'static str, n: &str, counter: &'static str) {
+    ctx.st.evaluations += 2;
+    ctx.st.count(counter);
+    let changed = typed_name(ty, n) != n;
+    if changed {
+        match ty {
+            "pypi" => ctx.st.count("rule-changed-name:pypi"),
+            "nuget" => ctx.st.count("rule-changed-name:nuget"),
+            _ => {},
+        }
+        ctx.st.nontrivial(fnv(format!("{ty}\u{0}{n}").as_bytes()));
+        if ty == "nuget" {
+            for c in n.chars() {
+                if gen::TITLECASE.contains(&c) {
+                    ctx.st.set_insert("titlecase-exercised", format!("U+{:04X}", c as u32));
+                }
+            }
+        }
+    }
+    let mut wns: u8 = if ty == "maven" { 1 } else { 0 };
+    let mut fail = judge_name(ty, n, wns);
+    if ty == "maven" {
+        // maven without a namespace: absent, or spelled with slashes only — both entry points must refuse
+        for mode in [0u8, 2, 3] {
+            if fail.is_some() {
+                break;
+            }
+            ctx.st.evaluations += 2;
+            wns = mode;
+            fail = judge_name(ty, n, mode);
+            if fail.is_none() {
+                ctx.st.count("maven-without-namespace-refused");
+            }
+        }
+    }
+    if let Some(f) = fail {
+        let (kind, tag) = (f.kind.clone(), f.tag.clone());
+        let min = shrink_str(n, &mut |c| !c.is_empty() && judge_name(ty, c, wns).map_or(false, |g| g.kind == kind && g.tag == tag));
+        let g = judge_name(ty, &min, wns).unwrap_or(f);
+        ctx.st.violation("C08.name", g.signature("C08.name", &min), g.detail, json!({"kind": "name", "type": ty, "name": min, "namespace_mode": wns}));
+    }
+}
+
+/// Typed vs untyped parse of the same string.
+pub fn judge_twin(s: &str) -> (Option<&'static str>, Option<Fail>) {
+    let g = obs::parse::<String>(s).map(|p| Snap::of(&p));
+    let t = obs::parse::<PackageType>(s).map(|p| Snap::of(&p));
+    if let Out::Panic(m) = &g {
+        return (None, Some(Fail::new("panicked", format!("GenericPurl::<String>::from_str({s:?}): {m}"))));
+    }
+    if let Out::Panic(m) = &t {
+        return (None, Some(Fail::new("panicked", format!("Purl::from_str({s:?}): {m}"))));
+    }
+    match (&g, &t) {
+        (Out::Ok(gs), Out::Ok(ts)) => {
+            if !model::known_type(&gs.ty) {
+                return (None, Some(Fail::tagged("unknown-type-accepted", gs.ty.clone(), format!("typed PURL accepted {s:?} whose type {:?} is not one of the seven", gs.ty))));
+            }
+            if gs.ty != ts.ty || gs.ns != ts.ns || gs.ver != ts.ver || gs.quals != ts.quals || gs.sub != ts.sub {
+                return (None, Some(Fail::tagged("twin-differs", ts.diff(gs).unwrap_or("?"), format!("for {s:?} the typed PURL reports {ts:?}, the type-agnostic one {gs:?}"))));
+            }
+            let want = typed_name(&gs.ty, &gs.name);
+            if ts.name != want {
+                return (None, Some(Fail::tagged("name-rule", format!("{}:twin", gs.ty), format!("for {s:?} the typed PURL reports name {:?}; the {} rule applied to {:?} gives {want:?}", ts.name, gs.ty, gs.name))));
+            }
+            if gs.ty == "maven" && gs.ns.is_none() {
+                return (None, Some(Fail::new("maven-accepted-without-namespace", format!("typed PURL accepted {s:?}"))));
+            }
+            (Some("twin:both-accept"), None)
+        },
+        (Out::Ok(gs), Out::Err(e)) => {
+            if !model::known_type(&gs.ty) {
+                if e == "UnsupportedType" {
+                    (Some("twin:unknown-type-refused"), None)
+                } else {
+                    (None, Some(Fail::tagged("unknown-type-wrong-error", e.clone(), format!("{s:?}: type {:?} unknown, typed PURL answered {e} instead of UnsupportedType", gs.ty))))
+                }
+            } else if gs.ty == "maven" && gs.ns.is_none() {
+                if e == "MissingRequiredField(Namespace)" {
+                    (Some("twin:maven-no-namespace-refused"), None)
+                } else {
+                    (None, Some(Fail::tagged("maven-wrong-error", e.clone(), format!("{s:?}: typed PURL answered {e}"))))
+                }
+            } else {
+                (None, Some(Fail::tagged("typed-refused", e.clone(), format!("{s:?} is accepted by the type-agnostic PURL with known type {:?} but refused by the typed one with {e}", gs.ty))))
+            }
+        },
+        (Out::Err(e), Out::Ok(ts)) => {
+            (None, Some(Fail::tagged("typed-accepts-what-generic-refuses", e.clone(), format!("{s:?}: type-agnostic PURL answers {e}, typed PURL accepts as {ts:?}"))))
+        },
+        (Out::Err(_), Out::Err(_)) => (Some("twin:both-refuse"), None),
+        _ => unreachable!(),
+    }
+}
+
+fn twin_case(ctx: &mut Ctx, s: &str) {
+    ctx.st.evaluations += 1;
+    let (c, f) = judge_twin(s);
+    if let Some(c) = c {
+        ctx.st.count(c);
+        if c == "twin:both-accept" && (s.contains('@') || s.contains('?') || s.contains('#')) {
+            ctx.st.nontrivial(fnv(s.as_bytes()));
+        }
+    }
+    if let Some(f) = f {
+        let kind = f.kind.clone();
+        let min = shrink_str(s, &mut |c| judge_twin(c).1.map_or(false, |g| g.kind == kind));
+        let g = judge_twin(&min).1.unwrap_or(f);
+        ctx.st.violation("C08.twin", g.signature("C08.twin", &min), g.detail, json!({"kind": "twin", "input": min}));
+    }
+}
+
+const SHORT_ALPHABET: [char; 8] = ['a', 'A', '1', '-', '_', '.', 'Æ', 'ǅ'];
+
+pub fn run(ctx: &mut Ctx) {
+    let types: Vec<&'static str> = ALL_TYPES.iter().map(|t| type_name(*t)).collect();
+    // G7a: every Unicode scalar value as a one-character name
+    let mut idx = 0u64;
+    for cp in 0u32..=0x10FFFF {
+        let Some(c) = char::from_u32(cp) else { continue };
+        idx += 1;
+        if !ctx.mine(idx) {
+            continue;
+        }
+        let n = c.to_string();
+        for ty in &types {
+            name_case(ctx, ty, &n, "exhaustive:scalar-names-x-type");
+        }
+    }
+    // G7b: every string up to length L over the 8-letter alphabet
+    let maxlen = if ctx.quick() { 5 } else { 6 };
+    let mut idx = 0u64;
+    for len in 1..=maxlen {
+        let total = 8u64.pow(len as u32);
+        for j in 0..total {
+            idx += 1;
+            if !ctx.mine(idx) {
+                continue;
+            }
+            let mut n = String::new();
+            let mut rem = j;
+            for _ in 0..len {
+                n.push(SHORT_ALPHABET[(rem % 8) as usize]);
+                rem /= 8;
+            }
+            for ty in &types {
+                name_case(ctx, ty, &n, "exhaustive:short-names-x-type");
+            }
+        }
+    }
+    if ctx.worker == 0 {
+        ctx.st.exhaustive.push(json!({"name": "every Unicode scalar value as a one-character name x 7 types x {parser, builder}", "size": 7 * 1_112_064u64, "completed": true}));
+        ctx.st.exhaustive.push(json!({"name": format!("every name of length 1..={maxlen} over {{a, A, 1, -, _, ., Æ, ǅ}} x 7 types x {{parser, builder}}"), "size": 7 * idx, "completed": true}));
+    }
+    // random hostile names
+    let mut r = ctx.rng("c08.names");
+    for _ in 0..ctx.share(100_000, 3_000_000) {
+        let n = gen::mixed_string(&mut r, 1, 24, 60);
+        let ty = *r.pick(&types);
+        name_case(ctx, ty, &n, "random-names");
+    }
+    // typed vs untyped: G1 in the typed contexts (complete), legal spellings, mutated corpus
+    let (w, nw, quick) = (ctx.worker, ctx.nworkers, ctx.quick());
+    let mut f = |_i: u64, s: &str| twin_case(ctx, s);
+    let ctxs = ["pkg:npm/", "pkg:maven/g/", "pkg:maven/", "pkg:PyPi/", "pkg:nuget/", "pkg:"];
+    let a = gen::for_each_lang(&ctxs, gen::SIGMA_FULL, if quick { 3 } else { 4 }, w, nw, 0, &mut f);
+    let b = gen::for_each_lang(&ctxs, gen::SIGMA_STRUCT, if quick { 4 } else { 5 }, w, nw, a, &mut f);
+    if ctx.worker == 0 {
+        ctx.st.exhaustive.push(json!({"name": "token language in 6 typed contexts, typed vs untyped parse", "size": a + b, "completed": true}));
+    }
+    let mut r = ctx.rng("c08.g2");
+    for _ in 0..ctx.share(150_000, 4_000_000) {
+        let known = !r.chance(1, 4);
+        let t = spell::gen_tuple(&mut r, known);
+        let mask = spell::random_mask(&mut r);
+        let s = spell::spell(&mut r, &t, mask).assemble();
+        twin_case(ctx, &s);
+    }
+    let (corpus, _) = gen::load_corpus();
+    let mut r = ctx.rng("c08.g10");
+    for _ in 0..ctx.share(150_000, 4_000_000) {
+        let s = gen::mutate(&mut r, &corpus);
+        twin_case(ctx, &s);
+    }
+    // all other spec type names: refused by the typed PURL, accepted by the untyped one
+    if ctx.worker == 0 {
+        for t in crate::mon::c15::SPEC_OTHER_TYPES {
+            twin_case(ctx, &format!("pkg:{t}/ns/name@1"));
+        }
+    }
+}
+
+pub fn replay(_monitor: &str, case: &Value) -> Result<Option<Fail>, String> {
+    match str_field(case, "kind")? {
+        "name" => {
+            let wns = case.get("namespace_mode").and_then(|v| v.as_u64()).unwrap_or(0) as u8;
+            Ok(judge_name(str_field(case, "type")?, str_field(case, "name")?, wns))
+        },
+        "twin" => Ok(judge_twin(str_field(case, "input")?).1),
+        o => Err(format!("unknown case kind {o}")),
+    }
 }
